@@ -166,6 +166,14 @@ impl CustomAccountInterface for TimelockController {
         context_meta: Vec<OperationMeta>,
         auth_contexts: Vec<Context>,
     ) -> Result<(), Self::Error> {
+        // Every authorized context must be matched by exactly one operation
+        // descriptor: `zip` stops at the shorter side, so a shorter (or empty)
+        // descriptor vector would authorize the remaining contexts without
+        // consuming any scheduled operation.
+        if context_meta.len() != auth_contexts.len() {
+            return Err(TimelockError::Unauthorized);
+        }
+
         for (context, meta) in auth_contexts.iter().zip(context_meta) {
             match context.clone() {
                 Context::Contract(ContractContext { contract, fn_name, args }) => {
